@@ -17,16 +17,22 @@ for d in sorted(glob.glob(os.path.join(V, "seeded", "*"))):
             if line and not line.startswith("#"):
                 first = line[:160]
                 break
-    det = ", ".join(r.get("detected_by", [])) or "**none**"
-    if j.get("first_missed"):
-        det += " (first missed; " + j.get("strengthening", "generator strengthened") + ")"
+    fin = j.get("final")
+    if fin:
+        det = fin["check"] if fin["reported"] else "**not reported**" + (" - " + fin["note"] if fin.get("note") else "")
+        if j.get("first_missed"):
+            det += " (first missed; the machinery was strengthened, DESIGN.md section 12)"
+    else:
+        det = ", ".join(r.get("detected_by", [])) or "**none**"
     rows.append((os.path.basename(d), j["breaks_property"], det,
                  ", ".join("%s:%s" % (c, "VIOLATION" if v["rc"] == 1 else "pass") for c, v in r.get("checks", {}).items()), first))
 with open(os.path.join(V, "seeded", "README.md"), "w") as f:
     f.write("# Seeded changes\n\nEach directory holds `patch.diff` (apply with `git -C /repo apply`), `demo.rs` (fails with the patch, passes without), "
             "`notes.md` (the author's description: what it needs to manifest) and `meta.json` (what `tools/eval_seeded.py` ran: the demonstration "
             "with/without the patch in dev and release, the unedited suite with the patch, the quick checks and their verdicts).\n"
-            "The changes were written by fresh sub-agents that saw only the property text and a scratch worktree.\n\n"
+            "The changes were written by fresh sub-agents that saw only the property text and a scratch worktree. The column "
+            "'reported by' is the FINAL state: the quick check of the property against the change, re-run for every change by "
+            "`tools/regress_seeded.py` (private sandboxes) after the last edit of the machinery; 'checks run' is the first evaluation.\n\n"
             "| id | breaks | reported by (quick tier) | checks run | summary |\n|---|---|---|---|---|\n")
     for r in rows:
         f.write("| %s | %s | %s | %s | %s |\n" % r)
